@@ -99,7 +99,10 @@ int32_t psHkdfExpand(psCipherType_e hmacAlg,
             Memcpy(p, out - hashLen, hashLen); /* Prev. HMAC res. */
             p += hashLen;
         }
-        Memcpy(p, info, infoLen);
+        if (infoLen > 0)
+        {
+            Memcpy(p, info, infoLen);
+        }
         p += infoLen;
         *p = i;
         p++;
